@@ -569,5 +569,45 @@ def r15_14(ctx):
     return r
 
 
+def r15_15(ctx):
+    """'... and vice versa': what an independent implementation serialises must parse here. RTCP padding (P bit): the last
+    octet counts the pad octets including itself; receivers strip that many. The only counts that cannot be right are 0
+    and more than the packet holds. Senders do not owe a multiple of four: transport-wide congestion control feedback of
+    libwebrtc, pion and webrtc-rs pads its chunk/delta area with 1..3 octets and says so - rejecting those loses the
+    feedback and every other report in the same compound packet. Decided: between the P-bit test and the point where
+    the count is subtracted, parse_rtcp_packets rejects on exactly the two conditions pad == 0 and pad > body length."""
+    r = RuleResult("R15.15", "K6", "RTCP padding is rejected only when the count is 0 or exceeds the packet")
+    b = ctx.body("rtp::parse_rtcp_packets")
+    r.scope.append(b.name)
+    pbit = core.guard_edges(b, lambda term, meaning, *_: meaning is True and term[0] == "bin" and term[1] == "Ne" and mir.int_value(term[3]) == 0 and
+                            term[2][0] == "bin" and term[2][1] == "BitAnd" and mir.int_value(term[2][3]) == 0x20)
+    r.need("P-bit test in parse_rtcp_packets", len(pbit), 1)
+    accept = [bi for bi, si, st in b.assigns() if b.local_name(st["p"]["l"]) == "body_end" and "p" not in st["p"] and
+              (lambda t: t[0] == "bin" and t[1] in ("Sub", "SubUnchecked"))(b.term_rvalue(st["rv"]))]
+    r.need("pad subtraction", len(accept), 1)
+    region = b.reachable([t for _s, t in pbit], cut_blocks=set(accept), cut_edges=b.back_edges())
+
+    def pad_term(t):
+        return t[0] == "cast" and mir.has(t, lambda x: x[0] == "index")
+    n_ok = 0
+    for sb in sorted(region):
+        if b.blocks[sb]["t"]["k"] != "switch" or b.blocks[sb]["t"]["sp"]["x"].startswith("m:"):
+            continue
+        term, outs = b.switch_info(sb)
+        if not mir.has(term, pad_term):
+            continue            # not a test of the pad count
+        zero = term[0] == "bin" and term[1] in ("Eq", "Ne") and pad_term(term[2]) and mir.int_value(term[3]) == 0
+        too_big = term[0] == "bin" and ((term[1] in ("Gt", "Ge") and pad_term(term[2])) or (term[1] in ("Lt", "Le") and pad_term(term[3])))
+        if zero or too_big:
+            n_ok += 1
+            r.ok({"site": b.where(sb), "rejects": "pad == 0" if zero else "pad larger than the packet body"})
+        else:
+            r.violate(b.name, "rtcp:padding-stricter", b.where(sb),
+                      "a padded RTCP packet is rejected on a condition other than 'count is 0' / 'count exceeds the packet' (%s): pad counts that "
+                      "conforming senders produce (1..3 after transport-cc feedback) make the whole compound packet fail" % mir.show(term, 70))
+    r.need("padding sanity tests", n_ok, 2)
+    return r
+
+
 def run(ctx):
-    return [r15_1(ctx), r15_2(ctx), r15_3(ctx), r15_4(ctx), r15_5(ctx), r15_6(ctx), r15_7(ctx), r15_8(ctx), r15_9(ctx), r15_10(ctx), r15_11(ctx), r15_12(ctx), r15_13(ctx), r15_14(ctx)]
+    return [r15_1(ctx), r15_2(ctx), r15_3(ctx), r15_4(ctx), r15_5(ctx), r15_6(ctx), r15_7(ctx), r15_8(ctx), r15_9(ctx), r15_10(ctx), r15_11(ctx), r15_12(ctx), r15_13(ctx), r15_14(ctx), r15_15(ctx)]
